@@ -455,3 +455,65 @@ package core
 //@   ensures [reset] old(len(*s.line)) > 0 ==> !s.active && !s.visual && !s.visualLine && s.bpos == -1 && s.epos == -1
 //@   ensures [cursor] old(cok(s.cursor)) ==> s.cursor.pos == old(s.cursor.pos) && s.cursor.mark == old(s.cursor.mark)
 //@   ensures [cursor] s.cursor.pos == old(s.cursor.pos) || s.cursor.pos == clampi(old(s.cursor.pos), len(*s.line))
+
+// ---------------------------------------------------------------------------------------
+// Keys: the stack of unread input.  Pop order (as implemented): the typed bytes in buf first, then the
+// keys fed by macros (each rune truncated to a byte).
+
+//@ func PeekKey
+//@   props C03 C02 C05 C18 C01
+//@   terminates
+//@   requires keys != nil
+//@   pure
+//@   ensures result1 <==> (len(keys.buf) == 0 && len(keys.macroKeys) == 0)
+//@   ensures len(keys.buf) > 0 ==> result0 == keys.buf[0]
+//@   ensures len(keys.buf) == 0 && len(keys.macroKeys) > 0 ==> result0 == emod(keys.macroKeys[0], 256)
+
+//@ func PopKey
+//@   props C03 C02 C05 C18 C01
+//@   terminates
+//@   requires keys != nil
+//@   assigns keys.buf, keys.macroKeys
+//@   ensures result1 <==> (old(len(keys.buf)) == 0 && old(len(keys.macroKeys)) == 0)
+//@   ensures old(len(keys.buf)) > 0 ==> result0 == old(keys.buf[0]) && keys.buf == old(keys.buf)[1:] && keys.macroKeys == old(keys.macroKeys)
+//@   ensures old(len(keys.buf)) == 0 && old(len(keys.macroKeys)) > 0 ==> result0 == emod(old(keys.macroKeys[0]), 256) && keys.macroKeys == old(keys.macroKeys)[1:] && keys.buf == old(keys.buf)
+//@   ensures result1 ==> keys.buf == old(keys.buf) && keys.macroKeys == old(keys.macroKeys)
+
+//@ func PopForce
+//@   props C03 C05 C01
+//@   terminates
+//@   requires keys != nil
+//@   assigns keys.buf, keys.macroKeys, keys.mustWait
+//@   ensures old(len(keys.buf)) > 0 ==> result0 == old(keys.buf[0]) && keys.buf == old(keys.buf)[1:] && keys.macroKeys == old(keys.macroKeys)
+
+//@ func (*Keys).Pop
+//@   props C03 C05 C18 C01
+//@   terminates
+//@   requires k != nil
+//@   assigns k.buf, k.macroKeys, k.matched
+//@   ensures old(len(k.buf)) > 0 ==> result0 == old(k.buf[0]) && k.buf == old(k.buf)[1:] && k.macroKeys == old(k.macroKeys) && k.matched == old(k.matched) + unit(result0)
+
+//@ func MatchedKeys
+//@   props C03 C02 C05 C01
+//@   terminates
+//@   requires keys != nil
+//@   assigns keys.matched, keys.buf, keys.mustWait
+//@   ensures [refeed] keys.buf == args + old(keys.buf)
+//@   ensures [caller] len(matched) > 0 ==> keys.matched == runes(matched)
+//@   ensures [caller] len(matched) == 0 ==> keys.matched == old(keys.matched)
+//@   ensures !keys.mustWait
+
+//@ func MatchedPrefix
+//@   props C03 C02 C05 C01
+//@   terminates
+//@   requires keys != nil
+//@   assigns keys.matched, keys.buf, keys.mustWait, keys.mutex
+//@   ensures [unread-restored] keys.buf == prefix + old(keys.buf)
+//@   ensures len(prefix) > 0 ==> keys.mustWait == (old(len(keys.buf)) == 0) && keys.matched == runes(prefix)
+
+//@ func (*Keys).Caller
+//@   props C03 C02 C01
+//@   terminates
+//@   requires k != nil
+//@   pure
+//@   ensures result == k.matched
